@@ -2,7 +2,7 @@
 import corelib
 
 BOOL_LISTS = [[], [True], [False]]
-OBS = ["cfg", "tree", "shape", "dest", "attrs"]
+OBS = ["cfg", "tree", "shape", "dest", "attrs", "ts"]
 
 
 def config(quick):
@@ -51,6 +51,20 @@ def config_flags(quick):
         max_loggers=1, init_level=5, names=[], bool_lists=BOOL_LISTS, layouts=[""], opt_lists=[[]],
         setter_args={"Level": [(2, 0)] if quick else [(2, 0), (5, 0)]}, acts=["Flags", "PkgLevel"], probe_sevs=[4], max_list=1,
         flag_sets=FLAG_SETS[:2] if quick else FLAG_SETS[:3], max_saved=1,
+    )
+
+
+def config_time(quick):
+    """(D) zone mode and time layout are per-logger settings like the others (a child made by With...() or
+    New(options) leaves its parent alone), the date/time/microseconds/local-time flags are process-wide:
+    the timestamp of every logger's probe record is observed after every call."""
+    opt = lambda k, a, b=0: dict(k=k, a=a, b=b)
+    return dict(
+        max_loggers=2, init_level=5, names=["a"], bool_lists=BOOL_LISTS, layouts=["", "15:04:05"],
+        opt_lists=[[], [opt("UTCMode", 3), opt("TimeFormat", 2)]] + ([] if quick else [[opt("TimeFormat", 1)], [opt("UTCMode", 1)]]),
+        setter_args={"UTCMode": [(1, 0), (3, 0)], "TimeFormat": [(1, 0), (2, 0)]}, acts=["Set", "With", "New", "Flags"],
+        probe_sevs=[4], max_list=1, flag_sets=[["localTime"]] if quick else [["date"], ["localTime"]],
+        max_saved=0 if quick else 1,
     )
 
 
@@ -104,6 +118,8 @@ def run(ctx, replay):
                      obs=["cfg"], rand_count=0, rand_depth=0, rand_loggers=2, tag="flags")
     corelib.run_core(ctx, config_skip(ctx.quick()), invariants=["TreeOK"], properties=["Isolation", "TreeMonotone"],
                      obs=["cfg", "tree"], rand_count=0, rand_depth=0, rand_loggers=4, tag="skip")
+    corelib.run_core(ctx, config_time(ctx.quick()), invariants=["TreeOK", "FlagsOK"], properties=["Isolation", "RestoreExact"],
+                     obs=["cfg", "ts"], rand_count=0, rand_depth=0, rand_loggers=3, tag="time")
     ctx.assumptions += ["generated (anonymous) logger names never collide (26^-6 per pair)",
                         "attribute probe uses LogAttrs at Always severity; loggers at level Off or with an empty writer list show no attributes"]
     return ctx.finish(rule="every transition of the exhaustive MC graph (3 loggers; New/NewDetached/With*/Set* on level, format, "
